@@ -77,3 +77,10 @@ claim("C31",
       "Bounds: 3 symbolic program bytes after the opcode (thorough 6), byte-string operands <= 1 byte (thorough 2), single step from a stack of exactly the declared arity. Not executed (stated in the harness): cgo / large field-library crypto opcodes "
       "(ed25519verify*, ecdsa_*, vrf_verify, falcon_verify, ec_*, mimc, sumhash512, sha*/keccak, json_ref) and the multi-word arithmetic opcodes covered by C32 (divmodw, exp, expw, sqrt, b*, b/, b%, bsqrt); operands that size an allocation/loop (bzero, dupn, popn) <= 4. "
       "Whole-program termination, application mode and inner transactions are outside this check.")
+
+claim("C34",
+      "(a) Table level: the per-version dispatch tables built by the package's real init() are copied into plain arrays and queried with a SYMBOLIC (version, opcode): an opcode dispatched at version v was introduced at or before v and stays "
+      "available at v+1; every opcode named in an independent list of ledger-touching operations is excluded from signature mode at every version. (b) Dynamic: in the C31 step harness the ledger is nil, so any signature-mode step reaching ledger code "
+      "would panic; additionally a step that succeeds in signature mode has ModeSig in its mask. (c) Static/dynamic agreement: for every opcode with a check function or a dynamic size (constant blocks, push*, branches, callsub, switch, match, proto, frame ops...), "
+      "on the same symbolic immediate bytes, checkStep and step advance the pc identically and every branch target execution takes was marked legal by the check; a non-branching step that executes also passes the check.",
+      "Latest version table for (b),(c); 3 symbolic bytes after the opcode (thorough 6). Field-level gating (txn/global/asset_params_get field groups) is not covered. Back-branch alignment needs whole-program knowledge (instructionStarts) and is exempted in the single-step setting (explained in the harness).")
